@@ -122,7 +122,9 @@ func ruleC14(c *Check) {
 			w := writtenFields(B)
 			// pricing write on this path
 			var setP *Term
-			for _, ev := range pp.Path.Events {
+			var setKey []*Term
+			setIdx := -1
+			for i, ev := range pp.Path.Events {
 				if ev.Kind != EvCall {
 					continue
 				}
@@ -130,6 +132,8 @@ func ruleC14(c *Check) {
 					if e.Kind == "store" && e.Op == "Set" && e.Family == "0x06" {
 						if sv := structIn(e.Val, "Pricing"); sv != nil {
 							setP = sv
+							setKey = keyArgs(e)
+							setIdx = i
 						}
 					}
 				}
@@ -163,6 +167,57 @@ func ruleC14(c *Check) {
 					ok, need = true, alt
 				} else if pp.Facts.Has(alt.Not()) {
 					need = alt
+				}
+			}
+			if !ok && setP != nil && len(setKey) == 2 {
+				// the pricing written on this path read back from the store afterwards: the same value
+				keyOf := func(t *Term) string {
+					if L.Op == "res" && len(L.A) == 2 && len(L.A[1].A) == 2 {
+						if t.Eq(field("ServiceBinding", "ServiceName", L)) {
+							return L.A[1].A[0].String()
+						}
+						if t.Eq(field("ServiceBinding", "Provider", L)) {
+							return L.A[1].A[1].String()
+						}
+					}
+					return t.String()
+				}
+				// first mention of a term on the path
+				firstAt := func(x *Term) int {
+					for i, ev := range pp.Path.Events {
+						var ts []*Term
+						switch ev.Kind {
+						case EvCall:
+							ts = append(append(ts, ev.CI.args...), ev.Result)
+						case EvFact:
+							ts = append(ts, ev.Fact.T)
+						case EvAssign, EvWrite:
+							ts = append(ts, ev.Val)
+						}
+						for _, t := range ts {
+							if t != nil && t.Contains(x) {
+								return i
+							}
+						}
+					}
+					return -1
+				}
+				for _, k := range pp.Facts.Sorted() {
+					fa := pp.Facts[k]
+					if fa.Neg || fa.T.Op != "sdk.Coins.IsAllGTE" || len(fa.T.A) != 2 || !fa.T.A[0].Eq(dep) || fa.T.A[1].Op != md.Name || len(fa.T.A[1].A) == 0 {
+						continue
+					}
+					X := fa.T.A[1].A[len(fa.T.A[1].A)-1]
+					if X.Op != gPricing.Name || len(X.A) < 2 {
+						continue
+					}
+					ka := X.A[len(X.A)-2:]
+					if keyOf(ka[0]) != keyOf(setKey[0]) || keyOf(ka[1]) != keyOf(setKey[1]) {
+						continue
+					}
+					if i := firstAt(X); i > setIdx {
+						ok, need = true, fa
+					}
 				}
 			}
 			what := "update"
